@@ -29,12 +29,11 @@ const NONCE_LEN_FIELD: usize = 2;
 // n bytes - encrypted DEK
 // n bytes - nonce
 // n bytes - opaque (AEAD encrypted seed + tag)
-const MIN_PAYLOAD_SIZE: usize = DEK_LEN_FIELD
-    + NONCE_LEN_FIELD
-    + DEK_LEN_BYTES
-    + NONCE_LEN_BYTES
-    + SEED_LENGTH as usize
-    + TAG_LEN_BYTES;
+//
+// The size of the encrypted (wrapped) DEK is provider specific and unrelated to the size
+// of the plaintext DEK, so it contributes nothing to the minimum.
+const MIN_PAYLOAD_SIZE: usize =
+    DEK_LEN_FIELD + NONCE_LEN_FIELD + NONCE_LEN_BYTES + SEED_LENGTH as usize + TAG_LEN_BYTES;
 
 // Convenience function to create zero-filled Vec of given size
 fn vec_zero_filled(len: usize) -> Vec<u8> {
